@@ -36,6 +36,13 @@ Theorem C09_pixel_layout : forall img x y,
   data_width img * ir_bpp img = 8 * bytes_per_row (sw (ir_size img)) (ir_bpp img).
 Proof. exact pixel_layout. Qed.
 
+(* byte form of the same fact: pixel (x,y) is item x of the y-th slice of bytes_per_row bytes of the data *)
+Theorem C09_pixel_row_layout : forall img x y,
+  img_ok img -> 0 <= x < sw (ir_size img) -> 0 <= y < sh (ir_size img) ->
+  raw_pixel img (P x y) = raw_load (ir_bpp img) (ir_alt img) (row_bytes img y) x /\
+  Z.of_nat (length (row_bytes img y)) = bytes_per_row (sw (ir_size img)) (ir_bpp img).
+Proof. exact pixel_row_layout. Qed.
+
 (* drawing Image(d, o) sets every q with q - o in the box to pixel(q - o) and touches nothing else *)
 Theorem C09_image_draw_spec : forall d o bb q,
   d_wf d -> point_ok o ->
